@@ -84,7 +84,7 @@ def detect(name, checks, resetup=True):
                     res[c]["replay"] = {k: (v if not isinstance(v, str) else v[:300]) for k, v in r.items() if k in ("kind", "oracle", "correspondence", "input_text", "verdict", "what")}
             print(name, c, "exit", rc, viol[:1])
     finally:
-        sh("git checkout -- .", "/repo")
+        sh("git checkout -- . && git clean -fdq", "/repo")
         for f, s in saved.items():
             open(os.path.join(V, "evidence", f), "w").write(s)
         # the generated tables were made from the patched tree: regenerate them
@@ -132,7 +132,7 @@ if __name__ == "__main__":
                         res[c]["replay"] = {k: (v if not isinstance(v, str) else v[:400]) for k, v in r.items() if k in ("kind", "oracle", "correspondence", "input_text", "verdict", "what")}
                 print(name, c, "exit", rc, viol[:1], flush=True)
         finally:
-            sh("git checkout -- .", "/repo")
+            sh("git checkout -- . && git clean -fdq", "/repo")
             for f, t in saved.items():
                 open(os.path.join(V, "evidence", f), "w").write(t)
         meta["checks"] = res
